@@ -231,6 +231,59 @@ def cutreply_script(rnd, sid):
     return sc
 
 
+def splitnext_script(rnd, sid):
+    """split reply delivery + cancellation of the awaited caller + the NEXT request registered before the split reply
+    completes: the reply to A arrives header first (or header + part of the payload, or only part of the header), A's
+    caller gives up, B's request is accepted and registered, then the rest of A's reply arrives, then B is answered.
+    B must get exactly its own reply, A its context error; nobody may hold A's reply. Several orders. Go only."""
+    version = rnd.choice([1, 1, 2])
+    b = cc.SB(sid, version=version, default_handler=rnd.choice([None, dict(mode="all", k=0)]))
+    b.connect(cur=rnd.choice([1, 2]), mx=2)
+    tag = rnd.randrange(1, 1 << 20) * 64
+    others = rnd.randrange(0, 3)
+    for c in range(1, 2 + others):
+        b.send(c, rnd.choice(REQ_TYPES), 1 + rnd.randrange(0, 40), tag + c)
+    n = rnd.choice([0, 1, 2, 16, 120, 129, 3000])
+    cut = rnd.choice([1, 5, 9, 10, 10, 10 + n // 2, 10 + max(0, n - 1)])
+    cut = min(cut, 10 + n - 1) if n else min(cut, 9)
+    rep = dict(op="reply", to=b.req_index[1], typ=resp_type(b.reqs[1]["typ"]), pl=dict(k="tag", len=n, tag=(tag + 50) if n else 0))
+    B = 2 + others
+    order = rnd.choice(["cancel-send", "cancel-send", "send-cancel", "cancel-rest-send"])
+    b.steps.append(dict(rep, cut=cut))
+    if order == "send-cancel":
+        b.send(B, rnd.choice(REQ_TYPES), 1 + rnd.randrange(0, 40), tag + B)
+        b.cancel(1)
+        b.steps.append(dict(rep, skip=cut))
+    elif order == "cancel-send":
+        b.cancel(1)
+        b.send(B, rnd.choice(REQ_TYPES), 1 + rnd.randrange(0, 40), tag + B)
+        b.steps.append(dict(rep, skip=cut))
+    else:
+        b.cancel(1)
+        b.steps.append(dict(rep, skip=cut))
+        b.send(B, rnd.choice(REQ_TYPES), 1 + rnd.randrange(0, 40), tag + B)
+    b.wait(B)                                  # not answered yet: must still be waiting
+    if rnd.random() < 0.5:                      # a third request reuses whatever the second one released
+        b.reply_to(B, resp_type(b.reqs[B]["typ"]), rnd.choice([0, 7, 64]), tag + 60)
+        b.wait(B)
+        C = B + 1
+        b.send(C, rnd.choice(REQ_TYPES), 1 + rnd.randrange(0, 40), tag + C)
+        b.wait(C)
+        b.reply_to(C, resp_type(b.reqs[C]["typ"]), rnd.choice([0, 7, 64]), tag + 61)
+        b.wait(C)
+    else:
+        b.reply_to(B, resp_type(b.reqs[B]["typ"]), rnd.choice([0, 7, 64]), tag + 60)
+        b.wait(B)
+    for c in range(2, 2 + others):
+        b.reply_to(c, resp_type(b.reqs[c]["typ"]), rnd.choice([0, 9]), tag + 70 + c)
+        b.wait(c)
+    b.wait(1)
+    b.op("drain")
+    sc = b.script()
+    sc["family"] = "splitnext"
+    return sc
+
+
 def witness_script():
     """the hand-confirmed defect: request outstanding, KeepAlive with the same id"""
     b = cc.SB("c03-witness", version=1)
@@ -266,14 +319,15 @@ def run(tier, seed, replay=None):
     if replay:
         rp_data = json.load(open(replay))
         scripts = [rp_data["script"]] if "script" in rp_data else []
-        if scripts and scripts[0].get("family") in ("cutreply",):
+        if scripts and scripts[0].get("family") in ("cutreply", "splitnext"):
             pred_only, scripts = scripts, []
     else:
         rx = random.Random(seed + 3)
         scripts = ([witness_script()] + gen_scripts(seed, 4000 if thorough else 400, thorough)
                    + [nowait_script(rx, "c03-nowait-%d" % i) for i in range(200 if thorough else 40)]
                    + [oversize_script(rx, "c03-oversize-%d" % i) for i in range(6 if thorough else 1)])
-        pred_only = [cutreply_script(rx, "c03-cutreply-%d" % i) for i in range(120 if thorough else 24)]
+        pred_only = ([cutreply_script(rx, "c03-cutreply-%d" % i) for i in range(120 if thorough else 24)]
+                     + [splitnext_script(rx, "c03-splitnext-%d" % i) for i in range(300 if thorough else 48)])
     scripts = cc.staged(exe, scripts, lambda s_, g_: bool(cc.pred_c03(cc.go_view(s_, g_))))
     go, logs = cc.run_go(exe, scripts, shards=8)
     variant, diffs, counts = cc.pick_variant(scripts, go)
